@@ -1802,6 +1802,20 @@ impl VtCtx {
         let _ = sc;
     }
 
+    pub fn op_churn(&mut self, k: u8) {
+        if self.reentrant_depth > 0 {
+            return;
+        }
+        self.w().h.label("churn");
+        let r = self.guarded("LocalCollector churn", |_| {
+            for _ in 0..(k as usize * 1000) {
+                let c = LocalCollector::start();
+                drop(c);
+            }
+        });
+        let _ = r;
+    }
+
     pub fn op_nest(&mut self, n: u16, span_sel: u16) {
         // nest scopes up to (4096 - 20 + n)
         let depth = self.w().h.vts[self.id].stack.len();
@@ -2075,6 +2089,7 @@ impl VtCtx {
             Op::Bulk { n } => self.op_bulk(*n),
             Op::Burst { n, kind } => self.op_burst(*n, *kind),
             Op::Nest { n, span } => self.op_nest(*n, *span),
+            Op::Churn { k } => self.op_churn(*k),
             Op::Exit => return false,
             Op::TraceFn { kind } => self.op_trace_fn(*kind),
         }
